@@ -25,10 +25,13 @@ EXTRA = "EMA3"
 
 
 def mk(label):
-    """'RSI2' or 'RSI2@T2' (member on its own timeframe)."""
+    """'RSI2' or 'RSI2@T2' (member on its own timeframe; '@t2' lower-case spelling, '@=T5' enum member, '+fill')."""
     base, _, tf = label.partition("@")
     tf, _, fill = tf.partition("+")
     kw = {"timeframe": tf} if tf else {}
+    if tf.startswith("="):  # the TimeFrame enum member with that value
+        from hexital.utils.timeframe import TimeFrame
+        kw["timeframe"] = next(m for m in TimeFrame if m.value == tf[1:])
     if fill:
         kw["timeframe_fill"] = True
     return make(BY_LABEL[base], **kw)
@@ -430,7 +433,7 @@ def main(prop, tier):
                     items.append((prop, tier, perm, depth, word, (), None, tix))
         # members on their own (shared / differently spelled / fill-flagged) timeframes over a stream with gaps
         tfp = [("SMA2@T2", "EMA2@T2"), ("SMA2@T2", "EMA2@T2+fill"), ("SMA2@T2+fill", "EMA2@T2"), ("RSI2@S120", "OBV@S120"),
-               ("SMA2@t2", "EMA2@T2"), ("ATR2@T2", "TR@T4"), ("BBANDS2@T4", "SMA2@T2"), ("MACD232@S120", "EMA2@T2"), ("ST2@T2+fill", "OBV")]
+               ("SMA2@t2", "EMA2@T2"), ("SMA2@T5", "EMA2@=T5"), ("ATR2@T2", "TR@T4"), ("BBANDS2@T4", "SMA2@T2"), ("MACD232@S120", "EMA2@T2"), ("ST2@T2+fill", "OBV")]
         for a, b in tfp:
             for perm in ((a, b), (b, a)):
                 for tix in (0, 1):
